@@ -1,3 +1,4 @@
+import WtfModel.Basic.Bytes
 namespace Driver
 
 def words (l : String) : List String := (l.splitOn " ").filter (· ≠ "")
@@ -11,5 +12,39 @@ def sortStrings (xs : List String) : List String :=
   xs.foldl (fun acc x =>
     let (a, b) := acc.span (fun y => y < x || y == x)
     a ++ x :: b) []
+
+end Driver
+
+namespace Driver
+open Wtf
+
+/-- list token: `-` = empty list, elements comma-separated, `_` = empty string element -/
+def bytesList? (s : String) : Option (List Bytes) :=
+  if s == "-" then some [] else
+  (s.splitOn ",").mapM (fun e => if e == "_" then some [] else Bytes.ofHex e)
+
+def hexDigitVal (c : Char) : Nat :=
+  if '0' ≤ c ∧ c ≤ '9' then c.toNat - 48
+  else if 'a' ≤ c ∧ c ≤ 'f' then c.toNat - 87
+  else if 'A' ≤ c ∧ c ≤ 'F' then c.toNat - 55 else 0
+
+/-- `f:<hex bits>` → Float -/
+def floatOf? (s : String) : Option Float :=
+  if s.startsWith "f:" then
+    let n := (s.drop 2).toString.toList.foldl (fun acc c => acc * 16 + hexDigitVal c) 0
+    some (Float.ofBits (UInt64.ofNat n))
+  else none
+
+def hexOfNat (n : Nat) : String :=
+  if n == 0 then "0" else
+  let rec go (fuel n : Nat) (acc : List Char) : List Char :=
+    match fuel with
+    | 0 => acc
+    | fuel + 1 => if n == 0 then acc else go fuel (n / 16) (Bytes.hexDigit (n % 16) :: acc)
+  String.ofList (go 20 n [])
+
+def fmtFloat (x : Float) : String := "f:" ++ hexOfNat x.toBits.toNat
+
+def boolOf (s : String) : Bool := s == "1"
 
 end Driver
